@@ -152,4 +152,36 @@ def GraphFn.hasAcyclic : GraphFn → Bool
 def GraphFn.native (fn : GraphFn) (arg : Option Bool) (cfg : Config) (acyclic : Bool) : Bool :=
   if fn.hasAcyclic then usePrimitive arg (fn.cfgFlag cfg) acyclic else resolveFlag arg (fn.cfgFlag cfg)
 
+/-! ### rows of the generated tables (Gen/C20Tables.lean) -/
+
+/-- A result as recorded in the generated tables: the value, or the name of the Python exception. -/
+def tbl {α : Type} (r : Py α) : Except String α :=
+  match r with
+  | .ok a => .ok a
+  | .error e => .error e.name
+
+/-- One recorded run of `Config(infer_from_env)`: the inputs (availability of the probed modules, the
+four environment variables) and the observed attributes or exception. -/
+structure ConfigRow where
+  infer : Bool
+  avail : Avail
+  backend : Option String
+  path : Option String
+  prim : Option String
+  div : Option String
+  out : Except String Config
+  deriving Repr
+
+/-- The environment of a recorded run. -/
+def ConfigRow.env (r : ConfigRow) : Env := fun k =>
+  if k = "CSPUZ_DEFAULT_BACKEND" then r.backend
+  else if k = "CSPUZ_BACKEND_PATH" then r.path
+  else if k = "CSPUZ_USE_GRAPH_PRIMITIVE" then r.prim
+  else if k = "CSPUZ_USE_GRAPH_DIVISION_PRIMITIVE" then r.div
+  else none
+
+/-- The model reproduces the recorded run. -/
+def ConfigRow.agrees (r : ConfigRow) : Bool :=
+  decide (tbl (Config.init r.infer r.env r.avail) = r.out)
+
 end Cspuz
